@@ -430,7 +430,8 @@ theorem C16_map_set_item_heap_safe (h : Heap) (hw : h.WF) (ents : List Nat) (es 
       ∧ (∀ a, a ∈ F → a ∉ F' → h'.cell a = none)
       ∧ (∀ a, h.next ≤ a → a < h'.next → a ∈ F' ∨ h'.cell a = none)
       ∧ (∀ a, a ∈ F' → a < h'.next) :=
-  mapSetItemH_spec h hw ents es F nk key x hr hF (needEntries es) (Nat.le_refl _)
+  let ⟨ents', h', F', a1, a2, a3, a4, a5, a6, a7, _, _⟩ := mapSetItemH_spec h hw ents es F nk key x hr hF (needEntries es) (Nat.le_refl _)
+  ⟨ents', h', F', a1, a2, a3, a4, a5, a6, a7⟩
 
 /-- **`cif_map_retrieve_item(…, do_remove)` on a whole standalone map**, followed by the caller's `cif_value_free` of the
     value it was handed: exactly the blocks of the removed entry are released (each once), the remaining entries represent
